@@ -327,20 +327,42 @@ def try_from_u64_model(ctx, config="all"):
         b3 = prog.bodies.get(k3)
         if b3 is None:
             continue
+        # decided on intervals: where ValueNegative is built the source value is certainly negative, and where a
+        # non-ValueNegative result is produced from the unsigned conversion it is certainly non-negative -- however the
+        # sign test is written (is_negative(), value < 0, value >= 0 ...)
+        from .. import absint as _ai
         v = prog.view(b3, (65, 2))
+        a = _ai.Analysis(v)
         ok = True
         found = False
-        for bi in sorted(v.reachable):
+        why = ""
+        for bi in sorted(a.entry):
+            st0 = a.entry[bi].copy()
             for s in v.blocks[bi]["stmts"]:
                 if s["s"] == "assign" and s["rv"]["r"] == "agg" and s["rv"].get("variant") == "ValueNegative":
                     found = True
-                    if ("is_negative", True) not in total.dominating_conditions(v, bi):
+                    iv = a.get(st0, st0.alias.get(1, 1))
+                    if iv is None or iv[1] >= 0:
                         ok = False
+                        why = "the source value can be %s where ValueNegative is built" % (iv,)
+                if s["s"] == "assign":
+                    a.assign(st0, s)
+        # the non-negative side must not be reachable with a negative value: every return block that is not reached
+        # through a ValueNegative construction sees value >= 0
+        neg_blocks = {bi for bi in a.entry for s in v.blocks[bi]["stmts"]
+                      if s["s"] == "assign" and s["rv"]["r"] == "agg" and s["rv"].get("variant") == "ValueNegative"}
+        for bi, t in v.calls():
+            if bi in a.entry and (ir.callee_name(t["fn"]) or "").endswith("::try_from") and t["dest"]["l"] == 0:
+                st = a.state_before_term(bi)
+                iv = a.get(st, st.alias.get(1, 1)) if st is not None else None
+                if iv is not None and iv[0] < 0:
+                    ok = False
+                    why = "the unsigned conversion's result is returned although the source value can be negative (%s)" % (iv,)
         if found and ok:
-            rep.ok("try_from_%s|negative" % ty, "src/from.rs", "ValueNegative exactly on the is_negative edge")
+            rep.ok("try_from_%s|negative" % ty, "src/from.rs", "ValueNegative exactly where the value is negative")
         else:
-            rep.violation("try_from_%s|negative" % ty, "src/from.rs", "ValueNegative is not constructed exactly on the "
-                          "is_negative edge (found=%s)" % found)
+            rep.violation("try_from_%s|negative" % ty, "src/from.rs", "ValueNegative is not constructed exactly for negative "
+                          "values (found=%s) %s" % (found, why))
     rep.analysed = {"build_config": config}
     return rep
 
